@@ -189,7 +189,7 @@ fn table_program(r: RecvK, name: &str, args: &[ArgK]) -> Prog {
     Prog { consts: a.consts, globals: vec![], entry }
 }
 
-fn special_programs() -> Vec<(&'static str, Prog, &'static str, bool)> {
+pub fn special_programs() -> Vec<(&'static str, Prog, &'static str, bool)> {
     let s = |t: &str| Const::Str(t.to_owned());
     let mut v = Vec::new();
     // global read before any assignment is null; set global copies without popping
